@@ -192,6 +192,20 @@ Definition sort_desc (l : list patch) : list patch := fold_right insert_desc [] 
 
 Definition apply_patches (text : str) (ps : list patch) : str := fold_left apply_patch (sort_desc ps) text.
 
+(* how textbuilder.Replacer builds its output: text before the patch, the new text, and so on *)
+Fixpoint spec_apply (off : Z) (text : str) (ps : list patch) : str :=
+  match ps with
+  | [] => skipn (Z.to_nat off) text
+  | p :: t => slice text off (p_start p) ++ p_new p ++ spec_apply (p_end p) text t
+  end.
+
+(* ascending, disjoint, inside the text *)
+Fixpoint wf_patches (off : Z) (text : str) (ps : list patch) : Prop :=
+  match ps with
+  | [] => 0 <= off <= Z.of_nat (List.length text)
+  | p :: t => 0 <= off <= p_start p /\ p_start p < p_end p /\ wf_patches (p_end p) text t
+  end.
+
 (* get_dollar_replacer: [dollars] are the offsets (ascending) in the formula of the `$` that become `rec.`.
    The i-th one (from 0) sits at d + 3*i in the $-free text and its replacement ends at d + 3*i + 4.
    Replacer.map_back_patch: an offset of the $-free text at or after that end lies 3 further right per
